@@ -30,6 +30,9 @@ RULES = {
     'C05.h': 'the incremental synchronisation reads every value from the database its record names: a database handle that is carried '
              'from one record to the next (a one-entry cache) is re-assigned only under the comparison of the cached name with the '
              'record\'s database name, together with that name',
+    'C05.i': 'the catch-up batch cannot overflow the member link silently: in the supervisor every command of the batch is sent through a '
+             'fresh clone of the member\'s sender (futures mpsc guarantees one slot per sender handle), not through one handle reused '
+             'for the whole loop (about a hundred try_sends, the rest is dropped with a warning)',
 }
 
 
@@ -304,3 +307,41 @@ def run(ck, m):
         ck.ob('C05.h', 'incremental-sync', 'no-carried-handle', bool(sb2),
               'no database handle is carried from one record to the next (every record looks its database up)' if sb2 else
               'incremental synchronisation builder not found', '')
+
+    # ---- (i) one sender handle per queued command ---------------------------------------------
+    ni = 0
+    for ub in [sb] + P.private_helpers(sb):
+        loops_u = natural_loops(ub)
+        for bi, t_ in ub.calls():
+            if is_log(t_):
+                continue
+            d_ = callee_decl(t_)
+            # batch loops only: the event loop of the supervisor (the one that awaits the next message) is not a batch
+            inl = [body for h, body in loops_u if bi in body and not any(
+                ub.term(x)['k'] == 'call' and callee_decl(ub.term(x)).endswith('Future::poll') for x in body)]
+            if not inl:
+                continue
+            body = min(inl, key=len)
+            if d_.endswith('mpsc::Sender::try_send') and 'member' in wire.channel_kinds(P, ub, t_['args'][0]):
+                ni += 1
+                clones = [r[1] for r in origins(ub, t_['args'][0], stop_at_calls=True)
+                          if r[0] == 'call' and callee_decl(ub.term(r[1])) == 'std::clone::Clone::clone']
+                fresh = bool(clones) and all(c in body for c in clones)
+                ck.ob('C05.i', short(ub.id), 'batch-send-fresh-handle', fresh,
+                      'each command of the batch goes through its own clone of the member sender' if fresh else
+                      'the batch loop at %s sends every command through one sender handle: a bounded futures channel gives a handle one '
+                      'guaranteed slot, so a catch-up of more than ~100 commands loses the rest (keys, removes, later create-db, the closing '
+                      'snapshot) with only a warning' % ub.loc(bi), ub.loc(bi))
+            else:
+                cb_ = P.bodies.get(callee(t_))
+                if cb_ is not None and not t_['f'].get('ind') and any(
+                        callee_decl(tx).endswith('mpsc::Sender::try_send') and 'member' in wire.channel_kinds(P, cb_, tx['args'][0]) for _, tx in cb_.calls()):
+                    # a helper that sends: it must clone inside itself (judged there by the same rule when it loops) or per call
+                    ni += 1
+                    inner = [(x, tx) for x, tx in cb_.calls() if callee_decl(tx).endswith('mpsc::Sender::try_send') and not is_log(tx)]
+                    fresh = bool(inner) and all(any(r[0] == 'call' and callee_decl(cb_.term(r[1])) == 'std::clone::Clone::clone'
+                                                    for r in origins(cb_, tx['args'][0], stop_at_calls=True)) for x, tx in inner)
+                    ck.ob('C05.i', short(ub.id), 'batch-send-fresh-handle:%s' % short(cb_.id), fresh,
+                          'the helper called for each command clones the sender before it sends' if fresh else
+                          'the helper %s called for each command of the batch sends on the handle it was given' % short(cb_.id), ub.loc(bi))
+    ck.floor('C05.i', ni, 1, 'sends to a member inside a loop of the supervisor')
